@@ -120,6 +120,7 @@ class RefineChecker:
         self.flip_ops: List[Tuple[int, Optional[dict]]] = []
         self.clauses = clauses
         self.state_sigs: List[str] = []
+        self.fallback: Optional[ir.TableState] = None
         w.on_flip.append(self.on_flip)
 
     def state_for(self, hint: Optional[bytes]) -> Optional[ir.TableState]:
@@ -143,12 +144,14 @@ class RefineChecker:
             self.problems.append({"clause": "R.unreadable", "msg": f"flip {flip['n']} by {flip['actor']}: {e}",
                                   "flip": flip["n"]})
             return
+        if P is None and flip["old"] is None:
+            P = self.fallback          # pointer was missing: the recoverable version (if any) is the base
         if N is None:
             self.problems.append({"clause": "R.pointer", "flip": flip["n"],
                                   "msg": f"flip {flip['n']} by {flip['actor']} wrote an unusable pointer {flip['new']!r}"})
             return
         res = dict(rec.get("resolved", {})) if rec else {}
-        if flip["old"] is None and not res:
+        if flip["old"] is None and self.fallback is None:
             res = {"init": True}
         probs = model.refine(P, N, res, self.commit_order)
         for s in N.snaps:
